@@ -1,6 +1,7 @@
 /* C18 driver: logical threads grow / query one shared wasmMemory through the REAL
  * wasmMemoryGrow of w2c2_base.h (compiled through sched_shim.h).
- * argv[1]: scripts, threads separated by '|', ops by ';':  G:delta   Z (memory.size)  L:addr (i32 load) */
+ * argv[1]: scripts, threads separated by '|', ops by ';':  G:delta   Z (memory.size)  L:addr (i32 load)
+ *          W:value (store value into the LAST page of the size seen now)   R:page (load from that page if it is inside the size seen now) */
 #include <stdio.h>
 #include <stdlib.h>
 #include <string.h>
@@ -23,6 +24,24 @@ static void* worker(void* arg) {
             sh_point("size");
             r = mem->pages;                       /* what memory.size is translated to */
             sh_api("ret", "size", 0, 0, 0, r);
+        } else if (op[0] == 'W' || op[0] == 'R') {
+            U32 seen, page;
+            sscanf(op + 2, "%lld", &a);
+            sh_point("size");
+            seen = mem->pages;                    /* the size this thread has observed: accesses below it are in bounds */
+            page = op[0] == 'W' ? seen - 1 : (U32)a;
+            if (seen == 0 || page >= seen) continue;
+            if (op[0] == 'W') {
+                sh_api("call", "store", page, a, 0, 0);
+                sh_point("store");
+                i32_store(mem, (U64)page * 65536 + 16, (U32)a);
+                sh_api("ret", "store", page, a, 0, 0);
+            } else {
+                sh_api("call", "load", page, 0, 0, 0);
+                sh_point("load");
+                r = i32_load(mem, (U64)page * 65536 + 16);
+                sh_api("ret", "load", page, 0, 0, r);
+            }
         } else if (op[0] == 'L') {
             sscanf(op, "L:%lld", &a);
             sh_point("load");
